@@ -92,8 +92,10 @@ def run(args):
                 else:
                     hist["agree_value"] += 1
             elif real in ("err stringIndexOutOfRange", "err sliceStepZero"):
-                if r != real:
-                    failures.append({"request": req, "real": real, "run_time": r, "why": "compile-time error does not match what run-time evaluation does"})
+                # an error reported at compile time must be an expression that fails at run time too; which of two
+                # failing operands is named may differ when the earlier one has no compile-time value (see below)
+                if not r.startswith("err"):
+                    failures.append({"request": req, "real": real, "run_time": r, "why": "a compile-time index/step error is reported for an expression that evaluates fine at run time"})
                 else:
                     hist["agree_error"] += 1
         # ORACLE 2: a built const prints what the function-body evaluation prints
